@@ -10,7 +10,9 @@
                          ["T"; inv; property; type; cardinality]   a statement of the last "S" row
     output, both:      row 0 = ["ok"; S1; S2; refs_closed; labels distinct]   (the computable
                        versions of the Spec predicates, evaluated on the model's graph)
-                       | ["err"; exception] | ["runerr"; exception]  (the extraction itself fails)
+                       | ["err"; exception]  ("Exception": rdflib's writer refuses an IRI in [_produce_output];
+                       the header row of a printed graph carries a sixth field "1")
+                       | ["runerr"; exception]  (the extraction itself fails)
                        then one row per triple, in emission order:
                          [subject kind; subject; predicate; object kind; object; datatype]
                        kinds: "I" IRI, "B" blank node (position path "i.k.j"), "L" literal. *)
@@ -42,6 +44,7 @@ Definition gerr_str (e : gerr) : str :=
   | GValueError => Str "ValueError"
   | GKeyError => Str "KeyError"
   | GUnmodelled => Str "unmodelled"
+  | GTypeError => Str "TypeError"
   end.
 
 (** the shape IRIs, as the serialiser computes them *)
@@ -60,11 +63,22 @@ Definition graph_rows (z : dcfg) (ns : nsdict) (tau : str) (shapes : list shape)
      bstr (refs_closedb' shapes); bstr (nodup_strb (map sh_name shapes))] :: map triple_row g
   end.
 
+(** the same through [_produce_output] ([ShaclDoc.shacl_output_gen]): rdflib's refusal to print an
+    invalid IRI is the error ["Exception"]; the header row gets a sixth field (the graph is printable) *)
+Definition output_rows (z : dcfg) (ns : nsdict) (tau : str) (shapes : list shape) : table :=
+  match shacl_output_gen z ns tau shapes with
+  | inr (OGraph e) => [[Str "err"; gerr_str e]]
+  | inr OException => [[Str "err"; Str "Exception"]]
+  | inl g =>
+    [Str "ok"; bstr (node_objects_declaredb g (shape_iris shapes)); bstr (property_shapes_one_pathb g);
+     bstr (refs_closedb' shapes); bstr (nodup_strb (map sh_name shapes)); bstr true] :: map triple_row g
+  end.
+
 Definition shacl_doc_pipe (t : table) : table :=
   let c := rcfg_of t in
   match run_shapes BAlg c (thr_of t) (graph_of t) with
   | inr e => [[Str "runerr"; rerr_str e]]
-  | inl (ns, shapes) => graph_rows no_patterns ns (r_tau c) shapes
+  | inl (ns, shapes) => output_rows no_patterns ns (r_tau c) shapes
   end.
 
 (** ** serialiser level *)
@@ -99,7 +113,7 @@ Definition pats_of_rows (rows : table) : dict (option (option str)) :=
 Definition shacl_doc_shapes (t : table) : table :=
   let z := nth 0 t [] in
   let pats := pats_of_rows t in
-  graph_rows {| d_detect := fbool z 2;
+  output_rows {| d_detect := fbool z 2;
                 d_pat := fun c => match dget pats c with Some x => x | None => None end |}
              [] (fld z 1) (shapes_of_rows t []).
 
